@@ -156,6 +156,17 @@ def handleShutdownEmfile (args : List String) (obs : String) : String :=
     model ++ "\t" ++ verdict
   | _ => "bad-case\tFAIL:bad-case"
 
+/-- c08s `<secs>`: a client stalls in the middle of a 32 MiB response and resumes: exactly that one response arrives. -/
+def handleStall (_args : List String) (obs : String) : String :=
+  let n := 32 * 1024 * 1024
+  let model := s!"status=200 declared={n} body={n} extra=0 second_status_line=0 stopped=1"
+  let verdict :=
+    if obs == "noconn" then "free" else
+    let fails := (if field obs "second_status_line" != "0" ∨ field obs "extra" != "0" then ["bytes-after-failed-or-partial-response"] else []) ++
+      (if field obs "status" == "200" ∧ field obs "body" == toString n then [] else ["slow-client-lost-its-response"])
+    if fails.isEmpty then "ok" else "FAIL:" ++ ",".intercalate fails ++ ":"
+  model ++ "\t" ++ verdict
+
 def respLen (p : Char) (i : Nat) : Nat :=
   if p.toLower == 'i' ∨ p.toLower == 'h' then 2 else if p == 'r' ∨ p == 'x' ∨ p == 'f' then 5 + (toString i).length else if p == 'b' then 7 else 6 * 1024 * 1024
 
